@@ -110,11 +110,15 @@ class Ctx:
         self.infos = []
         self._paths = {}
 
-    def configs_for_tier(self):
+    def configs_for_tier(self, all_subsets=False):
+        """quick: default features and --all-features.  thorough: + --no-default-features, and all 16 feature subsets for the
+        properties whose rules read configuration-dependent code (prefix.rs impls, serde, auto traits); the generic trie code
+        is the same in every configuration."""
         cfg = {"default": [], "all-features": ["--all-features"]}
         if self.tier == "thorough":
             cfg["no-default"] = ["--no-default-features"]
-            cfg.update(extract.all_feature_subsets())
+            if all_subsets:
+                cfg.update(extract.all_feature_subsets())
         return cfg
 
     def load(self, configs=None):
